@@ -101,6 +101,20 @@ CHECKS = {
             "Renderer ledger is the line truth (head `R = Cmd(` and `name =` on one line each; no CR-only endings). "
             "Parse-tree content is C10's business and only recorded. SimFS for the CLI.",
             "DESIGN.md 5/C11"),
+    "C19": ("histsim_registry", "exploration",
+            "deterministic simulation of process histories: each seeded history (imports by third parties, late class "
+            "definitions, Program constructions, loads, built-in configurations) runs in a fresh forked process with "
+            "the process-global registry's iteration order under a seeded permutation; refinement against a reference "
+            "registry model",
+            "Seeded exploration of histories over generated library universes with prefix-related names. After every "
+            "Program construction / load the name -> defining-module map must equal the reference map (a command "
+            "belongs to requested library L iff its module is L or starts with 'L.'), a name defined twice among the "
+            "requested libraries must be rejected at construction with an MPilotError, and the same request must get "
+            "the same answer at every point of the history.",
+            "Generated libraries' execute bodies are stubs returning their defining module; registry set replaced by a "
+            "seeded-order subclass before any library loads. One fork per history from a worker that never imports "
+            "mpilot.",
+            "DESIGN.md 5/C19"),
 }
 
 PENDING = {}
